@@ -24,6 +24,7 @@ size_t simfd_rx_pending(int task, int fd);
 /* FILE* over simulated content: chunks/faults come from the current op's fault script (FC_READ) */
 FILE *simfd_cookie_stream(const void *data, size_t len, int seekable, size_t startpos);
 FILE *simfd_cookie_stream_unreadable(void);
+FILE *simfd_fd_stream(int fd);      /* stdio stream over a simulated descriptor (fileno() works, stdio reads ahead) */
 int   simfd_open_streams(void);                   /* census of cookie streams not yet closed */
 extern uint64_t simfd_stat_cookie_reads, simfd_stat_cookie_short;
 
